@@ -13,7 +13,8 @@ CHECKS = {
         "bounded-exhaustive enumeration + Hypothesis draws against an independent positional model",
         "Every integer below 253^3 and every byte string of length <= 3 is enumerated (quick); the "
         "thorough tier enumerates all 253^4 integers. Encode is compared with a positional model, "
-        "decode with the documented formula, plus round trip and k-byte prefix. Exhaustive over the "
+        "decode with the documented formula, plus round trip and k-byte prefix; drawn call sequences check that an "
+        "encoding does not depend on earlier calls. Exhaustive over the "
         "stated ranges, sampled (stratified + random) for 4-byte values in the quick tier.",
         "Trusted: the harness' positional model (pinned by the repository's 24 vectors).",
         "DESIGN.md 5/C07",
@@ -23,7 +24,8 @@ CHECKS = {
         "independent reference interpreter; metamorphic explicit-defaults pairs",
         "Generated spec trees are fed to the real code generator, the output is imported and every drawn "
         "constructible object is serialised; bytes must equal an independent interpretation of the XML "
-        "(reference writer + reference interpreter). Packets: write()/family()/action(). Metamorphic: "
+        "(reference writer + reference interpreter), into empty and pre-filled writers. Packets: "
+        "write()/family()/action(). Metamorphic: "
         "spelling boolean defaults explicitly must not change generated code or bytes. Sampled, not "
         "exhaustive: ~3k trees / ~20k objects quick, ~40k trees thorough.",
         "Trusted: vlib/refinterp.py + refio.py as the eo-protocol semantics (silent points follow the "
@@ -34,7 +36,9 @@ CHECKS = {
         "exhaustive enumeration over 64 process shards against an independent reference formula",
         "All 16,194,277 three-byte challenges are enumerated in both tiers and compared with the published "
         "formula evaluated with an explicit truncating remainder written in the harness; the documented "
-        "non-negativity / EO-int bound is checked for every challenge <= 11,092,110. Exhaustive.",
+        "non-negativity / EO-int bound is checked for every challenge <= 11,092,110. Exhaustive. A strided subset is "
+        "asked again (twice, ascending then descending) to expose call-history dependence, and ~5,000 challenges are "
+        "recomputed in fresh `python -O` / `-OO` interpreters.",
         "Trusted: the published formula and C remainder convention, pinned by the repository's 15 vectors.",
         "DESIGN.md 5/C11",
     ),
@@ -44,7 +48,8 @@ CHECKS = {
         "random module's draw functions with a scripted source that observes the requested ranges "
         "(500,755 leaves on the pinned tree); each leaf: no exception, documented value range, field fit, "
         "reconstruction by the matching from-values constructor. Exhaustive in both tiers; exits 2 if a "
-        "generate() makes no observable draw.",
+        "generate() makes no observable draw. A second pass visits contiguous first-draw blocks ascending and "
+        "descending inside one process so that state kept between generate() calls shows.",
         "Trusted: generate() draws only through the random module functions that are substituted "
         "(anything else is a harness error, not a pass).",
         "DESIGN.md 5/C12",
@@ -53,8 +58,9 @@ CHECKS = {
         "bounded-exhaustive history enumeration + Hypothesis op-list strategy interpreted by a model oracle",
         "Every history of length 10 (quick) / 13 (thorough) over {next, set(a), set(b)} for four "
         "constructor-diverse start triples, plus 5,120 / 100,000 Hypothesis-drawn histories of up to 60 "
-        "steps with arbitrary integer start values, checked step by step against start + n mod 10 on two "
-        "lockstep sequencers. Bounded-exhaustive plus sampled.",
+        "steps with arbitrary integer start values (including starts whose value is temporarily unavailable: a "
+        "request that fails must not consume a counter slot), checked step by step against start + n mod 10 on "
+        "two lockstep sequencers. Bounded-exhaustive plus sampled.",
         "Trusted: the counter model in the check; start values are read through .value.",
         "DESIGN.md 5/C13",
     ),
@@ -195,7 +201,9 @@ CHECKS = {
         "For generated spec trees, constructed (lists and one-shot generators as array arguments) and deserialised "
         "instances are attacked through every public property (setattr/delattr on members, <switch>_data, "
         "byte_size, recursively into nested instances) and by mutating the caller's lists; every attempt must raise "
-        "AttributeError, arrays must be tuples unaffected by the caller, serialize before/after must agree. "
+        "AttributeError, arrays must be tuples unaffected by the caller (lists, generators, read-only sequence "
+        "views, tuples), serialize before/after must agree, and nothing reachable from a deserialised instance may "
+        "change when other data is deserialised later. "
         "Sampled: ~2k trees / ~10k instances / ~400k setattr attempts quick.",
         "Trusted: nothing beyond the generator of inputs; private attributes and caller-owned bytearrays for blobs "
         "are deliberately not asserted.",
@@ -207,8 +215,9 @@ CHECKS = {
         "Every generated serialize/deserialize (top level and every nested struct / case class, wrapped at run "
         "time) is observed on valid objects, invalid objects, valid/truncated/corrupt bytes, both entry modes, "
         "fault-free and with a writer/reader that raises at its k-th operation for drawn k over the whole run; the "
-        "mode at exit (return or raise) must equal the mode at entry. Sampled: ~2k trees / ~48k observed top-level "
-        "calls quick, ~25k trees thorough.",
+        "mode at exit (return or raise) must equal the mode at entry; on fault-free runs the sequence of (nested "
+        "class, mode at entry) must equal the reference interpreter's call tree (the 'consequently' clause). "
+        "Sampled: ~2k trees / ~48k observed top-level calls quick, ~25k trees thorough.",
         "Trusted: faults are injected at the public writer/reader operations; the wrapper observes the public mode "
         "properties.",
         "DESIGN.md 5/C15",
